@@ -403,8 +403,13 @@ class Ledger(metaclass=LedgerRegistry):
                 # Nothing to do, network thinks we're already at the latest height.
                 return
 
+            replaced = height < len(self.headers)
             added = await self.headers.connect(height, unhexlify(headers))
             if added > 0:
+                if replaced:
+                    # stored headers were overwritten without connect() refusing (a competing block at a height we
+                    # already had): the transactions cached as verified were checked against headers that are gone
+                    self._tx_cache.clear()
                 height += added
                 self._on_header_controller.add(
                     BlockHeightEvent(self.headers.height, added))
